@@ -281,6 +281,7 @@ def check_ring(pid, tier, t0):
         u = run_unit('ring-fault-%s' % tier, scs)
     else:
         scs, stats = ring_scenarios(tier, 'plain', lambda t, r: not FAULTY(t), wide=True)
+        scs.append(dict(scen.DEFAULT_ITERS))
         u = run_unit('ring-nofault-%s' % tier, scs)
     rs = random_scenarios(tier, fault_prop)
     ur = run_unit('rand-%s-%s-%d' % ('fault' if fault_prop else 'nofault', tier, seed()), rs)
@@ -415,6 +416,7 @@ def check_c18(tier, t0):
     sets = []
     scs, stats = ring_scenarios(tier, 'plain', lambda t, r: not FAULTY(t), wide=True)
     sets.append(('ring-nofault-%s' % tier, scs))
+    scs.append(dict(scen.DEFAULT_ITERS))
     scs2, stats2 = ring_scenarios(tier, 'plain', lambda t, r: FAULTY(t))
     sets.append(('ring-fault-%s' % tier, scs2))
     top = 2 if tier == 'quick' else 3
@@ -494,6 +496,13 @@ def check_c19(tier, t0):
                 continue
             for ncode in scen.Z_MAP[nm]:
                 scs.append(scen.z_build(r, 'z%d-%d-%s' % (nm, k, ncode), ncode))
+    for n in (0, 1, 3, 5):
+        raw, st = scen.z_small_raw(n)
+        stats.append(st)
+        for k, r in enumerate(scen.load_raw(raw)):
+            if tier == 'quick' and k % 2:
+                continue
+            scs.append(scen.z_build(r, 'zs%d-%d' % (n, k), str(n)))
     u = run_unit('zst-%s' % tier, scs)
     cov = l1_cov(stats)
     cov['states_note'] = ('l1_* = exhaustive TLC runs of spec/Ring.tla with MaxU = 7 (3-bit word) and N in {7,6,5,4,3}, where start + i really '
